@@ -30,6 +30,11 @@ fn main() {
             let code = props::c18::child_main(&args[2]);
             std::process::exit(code);
         }
+        #[cfg(feature = "full")]
+        "c18-first" => {
+            let code = props::c18::first_child_main(&args[2]);
+            std::process::exit(code);
+        }
         "fuzz-replay" => {
             // vcheck fuzz-replay <prop> <sub> --out FILE <corpus files or directories...>
             let prop = args[2].clone();
